@@ -13,6 +13,7 @@ package main
 //                | hc:<a>   open the HTTP client's TCP connection from source a
 //                | hq:<a>   HTTP POST over that connection, client address a (any v4/v6/v4-mapped) in the header
 //                | hx:<i>   HTTP POST whose client address header is the i-th unparsable value of admitBadHeaders
+//                | hc:none / tq:none  (unix=1) a connection over the listener's abstract unix socket: the peer has no IP address
 //                | sl:<ms>  pause (kind admitglobal: the global bucket refills); reported as SL
 //   result: out=<o>,<o>,... [SLOW]     o = ANS | REFUSED | 503 | CLOSED | SCLOSED | ACCEPT | other diagnostic text,
 //           with "+fwd" appended when a query that was not answered reached the upstream, "-nofwd" when an
@@ -32,6 +33,7 @@ import (
 	"runtime"
 	"strings"
 	"sync"
+	"sync/atomic"
 	"time"
 
 	"github.com/IrineSistiana/mosproxy/app/router"
@@ -115,6 +117,8 @@ func c15Rcode(resp []byte, id uint16) string {
 
 type admitEnv struct {
 	udpPort, tcpPort, httpPort, quicPort int
+	// round 6: unix=1: the http and the tcp listener are on abstract unix sockets (the peer has no IP address)
+	httpUnix, tcpUnix string
 	tcpConns                             map[string]net.Conn
 	quicConns                            map[string]quic.Connection
 	quicTrs                              []*quic.Transport
@@ -164,9 +168,13 @@ func (e *admitEnv) udpQuery(src netip.Addr, q []byte) string {
 func (e *admitEnv) tcpQuery(key string, src netip.Addr, q []byte) string {
 	c := e.tcpConns[key]
 	if c == nil {
-		d := net.Dialer{LocalAddr: &net.TCPAddr{IP: src.AsSlice()}, Timeout: admitIOTimeout}
 		var err error
-		c, err = d.Dial("tcp", fmt.Sprintf("127.0.0.1:%d", e.tcpPort))
+		if e.tcpUnix != "" {
+			c, err = net.DialTimeout("unix", e.tcpUnix, admitIOTimeout)
+		} else {
+			d := net.Dialer{LocalAddr: &net.TCPAddr{IP: src.AsSlice()}, Timeout: admitIOTimeout}
+			c, err = d.Dial("tcp", fmt.Sprintf("127.0.0.1:%d", e.tcpPort))
+		}
 		if err != nil {
 			return "HARNESS-ERROR " + err.Error()
 		}
@@ -249,8 +257,23 @@ func (e *admitEnv) quicQuery(key string, src netip.Addr, q []byte) string {
 }
 
 func (e *admitEnv) httpConnect(src netip.Addr) string {
-	d := net.Dialer{LocalAddr: &net.TCPAddr{IP: src.AsSlice()}, Timeout: admitIOTimeout}
-	c, err := d.Dial("tcp", fmt.Sprintf("127.0.0.1:%d", e.httpPort))
+	// a new connection replaces the previous one
+	if e.httpClient != nil {
+		e.httpClient.CloseIdleConnections()
+		e.httpClient = nil
+	}
+	if e.httpConn != nil {
+		e.httpConn.Close()
+		e.httpConn = nil
+	}
+	var c net.Conn
+	var err error
+	if e.httpUnix != "" {
+		c, err = net.DialTimeout("unix", e.httpUnix, admitIOTimeout)
+	} else {
+		d := net.Dialer{LocalAddr: &net.TCPAddr{IP: src.AsSlice()}, Timeout: admitIOTimeout}
+		c, err = d.Dial("tcp", fmt.Sprintf("127.0.0.1:%d", e.httpPort))
+	}
 	if err != nil {
 		return "HARNESS-ERROR " + err.Error()
 	}
@@ -304,6 +327,7 @@ func (e *admitEnv) httpQueryHdr(hdr string, q []byte) string {
 }
 
 var admitStartMu sync.Mutex
+var admitUnixSeq atomic.Int64
 
 // admitGuard: like guard, but a script that does not finish (every step has its own 0.7 s deadline, so this
 // can only be the harness' own plumbing) is reported as a harness error for that case instead of ending the run.
@@ -371,11 +395,18 @@ func runAdmit(id string, parts []string) string {
 				env.tcpPort, _ = c15FreePort(false)
 				env.httpPort, _ = c15FreePort(false)
 				env.quicPort, _ = c15FreePort(true)
+				tcpListen, httpListen := fmt.Sprintf("127.0.0.1:%d", env.tcpPort), fmt.Sprintf("127.0.0.1:%d", env.httpPort)
+				if f["unix"] == "1" {
+					n := admitUnixSeq.Add(1)
+					env.tcpUnix = fmt.Sprintf("@verif-c15-t-%d-%d", os.Getpid(), n)
+					env.httpUnix = fmt.Sprintf("@verif-c15-h-%d-%d", os.Getpid(), n)
+					tcpListen, httpListen = env.tcpUnix, env.httpUnix
+				}
 				cfg := &router.Config{
 					Servers: []router.ServerConfig{
 						{Tag: "u", Protocol: "udp", Listen: fmt.Sprintf("127.0.0.1:%d", env.udpPort)},
-						{Tag: "t", Protocol: "tcp", Listen: fmt.Sprintf("127.0.0.1:%d", env.tcpPort)},
-						{Tag: "h", Protocol: "http", Listen: fmt.Sprintf("127.0.0.1:%d", env.httpPort),
+						{Tag: "t", Protocol: "tcp", Listen: tcpListen},
+						{Tag: "h", Protocol: "http", Listen: httpListen,
 							Http: router.HttpConfig{ClientAddrHeader: "X-Client"}},
 						{Tag: "q", Protocol: "quic", Listen: fmt.Sprintf("127.0.0.1:%d", env.quicPort),
 							Tls: router.TlsConfig{DebugUseTempCert: true}},
@@ -424,7 +455,7 @@ func runAdmit(id string, parts []string) string {
 				continue
 			}
 			var a netip.Addr
-			if kind != "hx" {
+			if kind != "hx" && !strings.HasPrefix(as, "none") {
 				var err error
 				a, err = c15ParseAddr(as)
 				if err != nil {
